@@ -98,8 +98,24 @@ def drive(chk, build, props_file, gen_modules, keyfn, want, classify, n_quick, n
         info = {"samples": s, "options": {k: (list(v) if isinstance(v, tuple) else v) for k, v in o.items()}}
         hist[o["fw"] + "/" + o["structure"]] = hist.get(o["fw"] + "/" + o["structure"], 0) + 1
         chk.count(key=repr(s) + repr(sorted(info["options"].items(), key=str)), sample=info if len(chk.samples) < 2 else None)
+        roots = [("Root", s)]
+        if i >= len(corpus) and r.random() < 0.25:
+            # a second (and third) root whose explicit name is the name a nested model of the first root gets generated
+            import inflection
+            nested_keys = [k for x in s for k, v in x.items() if isinstance(v, dict) and v or (isinstance(v, list) and v and isinstance(v[0], dict))]
+            name2 = "Item"
+            if nested_keys:
+                try:
+                    name2 = inflection.camelize(inflection.singularize(inflection.underscore(r.choice(nested_keys)))) or "Item"
+                except Exception:  # noqa
+                    name2 = "Item"
+            s2, _ = make_input(r, keyfn, o["unidecode"])
+            roots.append((name2, s2))
+            if r.random() < 0.3:
+                roots.append(("Root", make_input(r, keyfn, o["unidecode"])[0]))      # the same explicit name twice
+            info["roots"] = [[n, x] for n, x in roots]
         try:
-            reg, _ = pipeline.build_registry([("Root", s)], o)
+            reg, _ = pipeline.build_registry(roots, o)
         except Exception as e:  # noqa
             oracle_failed |= chk.fail("oracle", info, f"registry construction raises {type(e).__name__}: {e}")
             continue
@@ -136,7 +152,8 @@ def replay_emit(chk, path, want, classify):
     o["rn"] = tuple(o["rn"])
     if o.get("cmp"):
         o["cmp"] = [tuple(x) for x in o["cmp"]]
-    reg, _ = pipeline.build_registry([("Root", r["samples"])], o)
+    roots = [(n, x) for n, x in r["roots"]] if r.get("roots") else [("Root", r["samples"])]
+    reg, _ = pipeline.build_registry(roots, o)
     try:
         text = pipeline.render(reg, o)
         res = emitcheck.check(text, reg, o, want=want)
